@@ -99,19 +99,25 @@ def check_layout(job, expected):
 
 def run_jobs(prop, jobs, wd, workers=None):
     """build each distinct harness once, then run all queries in parallel."""
-    built = {}
+    # distinct harness builds, in parallel (clang + llvm-link + opt + ir2c, a few seconds each)
+    keys = []
     for j in jobs:
-        if j.build_key in built:
-            j.cfile = built[j.build_key]
-            continue
+        if j.build_key not in keys: keys.append(j.build_key)
+    built = {}
+    def build_one(ik):
+        i, key = ik
+        rep = [x for x in jobs if x.build_key == key][0]
+        roots = sorted(set(x.entry for x in jobs if x.build_key == key))
         try:
-            nm = 'h%d' % len(built)
-            roots = sorted(set(x.entry for x in jobs if x.build_key == j.build_key))
-            j.cfile = e1.build(wd, nm, j.harness, j.tus, roots=roots, stubs=j.stubs, defines=j.defines, caps=j.caps)
-            built[j.build_key] = j.cfile
+            return key, e1.build(wd, 'h%d' % i, rep.harness, rep.tus, roots=roots, stubs=rep.stubs, defines=rep.defines, caps=rep.caps), None
         except Exception as e:
-            j.error = 'build failed: ' + str(e)[-1500:]
-            built[j.build_key] = None
+            return key, None, 'build failed: ' + str(e)[-1500:]
+    with concurrent.futures.ThreadPoolExecutor(max_workers=8) as ex:
+        for key, cfile, err in ex.map(build_one, list(enumerate(keys))):
+            built[key] = (cfile, err)
+    for j in jobs:
+        j.cfile, err = built[j.build_key]
+        if err: j.error = err
     workers = workers or min(8, max(1, len(jobs)))
 
     def one(j):
